@@ -56,4 +56,31 @@ def plan(prop, tier):
         return [(n, c, r) for n, (c, r) in F.items()]
     if prop == "C07":
         return [(n, c, r) for n, (c, r) in F.items() if c["fam"] in ("map", "filter", "scan", "take", "skip")]
+    own = {"C08": "merge", "C09": "concat", "C10": "combine", "C11": "flatten", "C12": "share"}
+    if prop in own:
+        fams = [(n, c, r) for n, (c, r) in F.items() if c["fam"] == own[prop] and not n.endswith("_serr")]
+        q = tier == "quick"
+        if prop == "C08":
+            fams.append(("merge2_d2", scen.with_bounds(scen.nary("merge", 2), "merge", maxData=2, maxTop=3 if q else 4,
+                                                      maxPull=1, allowFail=False), None))
+        if prop == "C09":
+            fams.append(("concat2_pull", scen.with_bounds(scen.nary("concat", 2, mode="pull"), "concat", maxData=1,
+                                                         maxTop=4, maxPull=3, allowFail=True, c14=True), None))
+            fams.append(("concat3_pull", scen.with_bounds(scen.nary("concat", 3, mode="pull"), "concat", maxData=1,
+                                                         maxTop=3 if q else 4, maxPull=3, allowFail=False, c14=True), None))
+        if prop == "C10":
+            fams.append(("combine2_d2", scen.with_bounds(scen.nary("combine", 2), "combine", maxData=2,
+                                                        maxTop=3 if q else 4, maxPull=1, allowFail=False), None))
+        if prop == "C11":
+            fams.append(("flatten2_pull", scen.with_bounds(scen.flatten_g(2, "pull", "pull"), "flatten", maxData=2,
+                                                          maxTop=4, maxPull=3, allowFail=True), None))
+            fams.append(("flatten2_push", scen.with_bounds(scen.flatten_g(2, "push", "push"), "flatten", maxData=2,
+                                                          maxTop=4 if q else 5, maxPull=1, allowFail=False), None))
+        if prop == "C12":
+            fams.append(("share2_push", scen.with_bounds(scen.share_g("push"), "share", sinks=["probe", "probe"],
+                                                        maxData=2, maxTop=5, maxPull=1, allowFail=True), None))
+            fams.append(("share3_push", scen.with_bounds(scen.share_g("push"), "share",
+                                                        sinks=["probe", "probe", "probe"], maxData=1,
+                                                        maxTop=4 if q else 5, maxPull=0, allowFail=False), None))
+        return fams
     return []
